@@ -116,6 +116,73 @@ theorem then_trans {c : α → α → Ordering} (h : TotalPre c) {a b d : α} {y
 theorem swap_then (x y : Ordering) : (x.then y).swap = x.swap.then y.swap := by
   cases x <;> rfl
 
+/-! ### The same facts for a comparison that is only known to be transitive on
+   some triples (used where a scheme is a preorder on a fragment only) -/
+
+section Local
+variable {f : α → α → Ordering}
+
+theorem lt_of_lt_of_le_local (sw : ∀ x y, f y x = (f x y).swap) {a b d : α}
+    (t₁ : f a b ≠ .gt → f b d ≠ .gt → f a d ≠ .gt)
+    (t₂ : f b d ≠ .gt → f d a ≠ .gt → f b a ≠ .gt)
+    (h₁ : f a b = .lt) (h₂ : f b d ≠ .gt) : f a d = .lt := by
+  have l := t₁ (by simp [h₁]) h₂
+  cases hh : f a d with
+  | lt => rfl
+  | gt => exact absurd hh l
+  | eq =>
+    have hda : f d a ≠ .gt := by rw [sw, hh]; simp [Ordering.swap]
+    have hba := t₂ h₂ hda
+    rw [sw, h₁] at hba
+    simp [Ordering.swap] at hba
+
+theorem lt_of_le_of_lt_local (sw : ∀ x y, f y x = (f x y).swap) {a b d : α}
+    (t₁ : f a b ≠ .gt → f b d ≠ .gt → f a d ≠ .gt)
+    (t₂ : f d a ≠ .gt → f a b ≠ .gt → f d b ≠ .gt)
+    (h₁ : f a b ≠ .gt) (h₂ : f b d = .lt) : f a d = .lt := by
+  have l := t₁ h₁ (by simp [h₂])
+  cases hh : f a d with
+  | lt => rfl
+  | gt => exact absurd hh l
+  | eq =>
+    have hda : f d a ≠ .gt := by rw [sw, hh]; simp [Ordering.swap]
+    have hdb := t₂ hda h₁
+    rw [sw, h₂] at hdb
+    simp [Ordering.swap] at hdb
+
+theorem eq_trans_local (sw : ∀ x y, f y x = (f x y).swap) {a b d : α}
+    (t₁ : f a b ≠ .gt → f b d ≠ .gt → f a d ≠ .gt)
+    (t₂ : f d b ≠ .gt → f b a ≠ .gt → f d a ≠ .gt)
+    (h₁ : f a b = .eq) (h₂ : f b d = .eq) : f a d = .eq := by
+  have l := t₁ (by simp [h₁]) (by simp [h₂])
+  have g := t₂ (by rw [sw, h₂]; simp [Ordering.swap]) (by rw [sw, h₁]; simp [Ordering.swap])
+  rw [sw] at g
+  cases hh : f a d with
+  | eq => rfl
+  | lt => rw [hh] at g; simp [Ordering.swap] at g
+  | gt => exact absurd hh l
+
+/-- `then_trans` with the three head facts supplied directly. -/
+theorem then_trans_local {x₁ x₂ x₃ y₁ y₂ y₃ : Ordering}
+    (s₁ : x₁ = .lt → x₂ ≠ .gt → x₃ = .lt) (s₂ : x₁ ≠ .gt → x₂ = .lt → x₃ = .lt)
+    (s₃ : x₁ = .eq → x₂ = .eq → x₃ = .eq) (hy : y₁ ≠ .gt → y₂ ≠ .gt → y₃ ≠ .gt)
+    (h₁ : x₁.then y₁ ≠ .gt) (h₂ : x₂.then y₂ ≠ .gt) : x₃.then y₃ ≠ .gt := by
+  cases e₁ : x₁ with
+  | gt => simp [e₁, Ordering.then] at h₁
+  | lt =>
+    have : x₂ ≠ .gt := by intro hh; simp [hh, Ordering.then] at h₂
+    simp [s₁ e₁ this, Ordering.then]
+  | eq =>
+    cases e₂ : x₂ with
+    | gt => simp [e₂, Ordering.then] at h₂
+    | lt => simp [s₂ (by simp [e₁]) e₂, Ordering.then]
+    | eq =>
+      simp only [e₁, e₂, Ordering.then] at h₁ h₂
+      simp only [s₃ e₁ e₂, Ordering.then]
+      exact hy h₁ h₂
+
+end Local
+
 /-! ### Comparison through a key -/
 
 /-- Compare two values by comparing their keys. -/
@@ -125,6 +192,19 @@ theorem keyCmp_totalPre {c : β → β → Ordering} (h : TotalPre c) (key : α 
   refl _ := h.refl _
   swap _ _ := h.swap _ _
   trans _ _ _ := h.trans _ _ _
+
+/-! ### First by one comparison, then by another -/
+
+/-- Decide by `c₁`; where it says `eq`, by `c₂`. -/
+def thenCmp (c₁ c₂ : α → α → Ordering) (a b : α) : Ordering := (c₁ a b).then (c₂ a b)
+
+theorem thenCmp_totalPre {c₁ c₂ : α → α → Ordering} (h₁ : TotalPre c₁) (h₂ : TotalPre c₂) :
+    TotalPre (thenCmp c₁ c₂) where
+  refl a := by simp [thenCmp, h₁.refl, h₂.refl, Ordering.then]
+  swap a b := by simp only [thenCmp, swap_then, h₁.swap a b, h₂.swap a b]
+  trans a b d := by
+    unfold thenCmp
+    exact then_trans h₁ (h₂.trans a b d)
 
 /-! ### Lexicographic comparison of lists (a proper prefix is smaller) -/
 
@@ -299,6 +379,12 @@ theorem natCmp_totalPre : TotalPre natCmp where
 
 theorem natCmp_eq {a b : Nat} : natCmp a b = .eq ↔ a = b := by
   unfold natCmp; by_cases h₁ : a < b <;> by_cases h₂ : a = b <;> simp [*] <;> omega
+
+theorem natCmp_ne_gt {a b : Nat} : natCmp a b ≠ .gt ↔ a ≤ b := by
+  unfold natCmp; by_cases h₁ : a < b <;> by_cases h₂ : a = b <;> simp [*] <;> omega
+
+theorem natCmp_swap_ne_gt {a b : Nat} : (natCmp a b).swap ≠ .gt ↔ b ≤ a := by
+  unfold natCmp; by_cases h₁ : a < b <;> by_cases h₂ : a = b <;> simp [*, Ordering.swap] <;> omega
 
 /-- Three-way comparison of integers. -/
 def intCmp (a b : Int) : Ordering := if a < b then .lt else if a = b then .eq else .gt
